@@ -2,8 +2,10 @@ package main
 
 import (
 	"fmt"
+	"math/rand"
 	"os"
 	"path/filepath"
+	"runtime"
 	"strings"
 
 	"github.com/Vedant9500/WTF/internal/constants"
@@ -17,8 +19,58 @@ func init() { engines["embed-history"] = engineC19History }
 // one with an embedding index attached, one without. At every search (limit > N): same candidates, and every score
 // with embeddings lies in [score_without, (1+alpha) * score_without]. Databases are obtained from the loader and as
 // struct literals (no re-ranker): attaching embeddings must not switch anything else on.
+// c19BigTable: a database the size of the shipped one with an embedding row for every entry, searched under the processor
+// counts of small and large machines: no crash, the list ordered, the same answer whatever the count.
+func c19BigTable(ctx *Ctx, r *rand.Rand) {
+	n := []int{4096, 4097, 5000, 6600, 6619, 7001}[r.Intn(6)]
+	cmds := vlib.GenCommands(r, vlib.DBSpec{N: n, TieHeavy: false})
+	db, err := vlib.LoadCommands(cmds)
+	if err != nil || !attachEmbeddings(ctx, r, db, "scaled") {
+		ctx.R.Inconcl("embeddings not attached (big table)")
+		return
+	}
+	words := vlib.DBWords(db.Commands)
+	defer runtime.GOMAXPROCS(runtime.GOMAXPROCS(0))
+	type qo struct {
+		q string
+		o database.SearchOptions
+	}
+	var reqs []qo
+	for i := 0; i < 4; i++ {
+		reqs = append(reqs, qo{vlib.GenQuery(r, words, 1+r.Intn(3), 0), database.SearchOptions{Limit: []int{10, 50, n + 1}[r.Intn(3)], AllPlatforms: true, UseNLP: i%2 == 0}})
+	}
+	var first []vlib.Ranked
+	for pi, procs := range []int{1, 2, 3, 16, 63, 65, 100, 128, 200, 256} {
+		runtime.GOMAXPROCS(procs)
+		for qi, rq := range reqs {
+			cs := map[string]interface{}{"class": "big embedding table", "entries": n, "processors": procs, "query": rq.q, "opts": vlib.OptsJ(rq.o)}
+			ctx.R.Begin(cs)
+			ctx.R.Eval(1)
+			ctx.R.Guard("C19", "SearchUniversal", cs, func() {
+				a := vlib.Canon(db.Commands, db.SearchUniversal(rq.q, rq.o))
+				for k := 1; k < len(a); k++ {
+					if a[k-1].Score < a[k].Score {
+						ctx.R.Violate(vlib.Violation{Property: "C19", Clause: "order", Path: "big-table", Detail: "list with embeddings is not ordered", Witness: cs})
+						return
+					}
+				}
+				if pi == 0 {
+					first = append(first, a)
+				} else if ok, why := vlib.Approx(first[qi], a, vlib.LimitInForce(rq.o.Limit)); !ok {
+					ctx.R.Violate(vlib.Violation{Property: "C19", Clause: "score-unbounded", Path: "big-table",
+						Detail: fmt.Sprintf("the answer with %d processors differs from the answer with 1: %s", procs, why), Witness: cs})
+				}
+				ctx.R.Path("big-table-searches", 1)
+			})
+		}
+	}
+}
+
 func engineC19History(ctx *Ctx) {
 	r := vlib.NewRand(ctx.Seed, ctx.Shard, "embed-history")
+	if ctx.Shard%4 == 1 || ctx.Thorough {
+		c19BigTable(ctx, r)
+	}
 	n := ctx.N(320, 9600)
 	alpha := constants.SemanticAlpha
 	origWD, _ := os.Getwd()
@@ -79,6 +131,25 @@ func engineC19History(ctx *Ctx) {
 		}
 		trace := []string{"database:" + kind}
 		for step := 0; step < 5; step++ {
+			if step == 1 && i%2 == 1 {
+				// the embedding files are reloaded on the same database: cmd_embeddings.bin was replaced meanwhile by rows three times
+				// as long - complete, or cut short by a few bytes (an interrupted download) - while glove.bin is untouched
+				scaled := make([][]float32, len(cv))
+				for k := range cv {
+					scaled[k] = c19Unit(cv[k], 3)
+				}
+				nb := c19CmdFile(uint32(len(scaled)), 100, scaled)
+				cut := []int{0, 1, 2, 4, 8, 16, 400}[r.Intn(7)]
+				if cut < len(nb) {
+					nb = nb[:len(nb)-cut]
+				}
+				os.WriteFile(filepath.Join(dir, "cmd_embeddings.bin"), nb, 0o644)
+				os.Chdir(dir)
+				ctx.R.Guard("C19", "LoadEmbeddings(again)", kind, func() { with.LoadEmbeddings() })
+				os.Chdir(origWD)
+				trace = append(trace, fmt.Sprintf("cmd_embeddings.bin replaced (rows x3, %d bytes cut off), LoadEmbeddings again", cut))
+				ctx.R.Path("history-reloads-of-embedding-files", 1)
+			}
 			if step == 2 || step == 4 { // the command list grows (entries without an embedding)
 				extra := vlib.MustLoad(vlib.GenCommands(r, vlib.DBSpec{N: 1 + r.Intn(3)})).Commands
 				without.Commands = append(without.Commands, extra...)
